@@ -3,6 +3,7 @@
 R03.1 emit-what-you-sign: the segments placed in the output are the values that form the signing input
 R03.2 kid-before-header: key selection (which may record a kid) precedes the encoding of the protected header
 R03.3 fixed-width R||S: ceiling division for every bit->octet conversion, same width on both sides, left-padding
+R03.7 compact round trip as a term identity (extract o sign, verify) under stated codec laws
 R03.6 optional JSON members (protected / header) are written when present
 R03.4 detaching touches only the payload        R03.5 the RFC 7797 attach/detach pattern is a full match of [A-Za-z0-9-_~]+
 """
@@ -14,7 +15,7 @@ from typing import List, Optional, Tuple
 from ..program import AnalysisError, FunctionInfo, fn_nodes, norm
 from ..callgraph import CallSite
 from ..cfg import cfg_of
-from ..terms import Terms, show, match, alts, C, K, L
+from ..terms import Terms, show, match, alts, C, K, L, simplify, substitute
 from .common import misguarded_member_stores, find_local, resolve_all, JWS_PRODUCE, const_value, entries, impls, is_const, scope_of, sites_calling
 from .c05 import _resolve_local
 from .c06 import _key_producers
@@ -359,7 +360,65 @@ def r03_6(ctx) -> None:
     ctx.count("R03.6", n, 4, "functions writing members of the JSON signature object")
 
 
+def r03_7(ctx) -> None:
+    """term-level round trip of the compact serialization: extract_compact(sign_compact(obj)) and verify_compact, composed
+    symbolically over the byte terms of the code under three stated codec laws (jv/terms.py: split of dot-free segments,
+    B64D(B64U(x)) = x, JSON header round trip), hand back exactly obj.payload / obj.headers() and verify the produced
+    signature over the produced signing input"""
+    eng = ctx.eng
+    P = eng.prog
+    Tm = Terms(eng)
+    sc, ec, vc = P.func("rfc7515.compact:sign_compact"), P.func("rfc7515.compact:extract_compact"), P.func("rfc7515.compact:verify_compact")
+    rets = [n.value for n in fn_nodes(sc) if isinstance(n, ast.Return) and n.value is not None]
+    if len(rets) != 1:
+        raise AnalysisError("sign_compact: expected one return")
+    prod = Tm.of(sc, rets[0])
+    ok = prod[0] == "CAT" and len(prod[1]) == 5
+    sign_call = None
+    if ok:
+        hseg, d1, pseg, d2, sseg = prod[1]
+        ok = hseg[0] == "B64J" and pseg[0] == "B64U" and sseg[0] == "B64U" and d1 == d2 == K(b".") and sseg[1][:2] == ("CALL", "sign")
+        sign_call = sseg[1] if ok else None
+    ctx.check(ok, "R03.7", sc, sc.node, "compact producer term", f"sign_compact does not produce B64J(header) '.' B64U(payload) '.' B64U(sign(...)): {show(prod)}", show(prod), construct="compact producer term")
+    if not ok:
+        return
+    vp = ec.pos_params[0]
+    ctor = [n for n in fn_nodes(ec) if isinstance(n, ast.Call) and eng.cg.site_of.get(id(n)) is not None and eng.cg.site_of[id(n)].kind == "ctor" and len(n.args) == 2]
+    if len(ctor) != 1:
+        raise AnalysisError("extract_compact: message constructor not found")
+    hdr = simplify(substitute(Tm.of(ec, ctor[0].args[0]), vp, prod))
+    pay = simplify(substitute(Tm.of(ec, ctor[0].args[1]), vp, prod))
+    ctx.check(pay == pseg[1], "R03.7", ec, ctor[0], "payload round trip", f"extract_compact(sign_compact(obj)).payload is {show(pay)}, not {show(pseg[1])}", f"= {show(pseg[1])}",
+              construct="compact payload round trip")
+    ctx.check(hdr == hseg[1], "R03.7", ec, ctor[0], "header round trip", f"extract_compact(sign_compact(obj)).protected is {show(hdr)}, not {show(hseg[1])}", f"= {show(hseg[1])}",
+              construct="compact header round trip")
+    # the segments kept by the extractor, then what verify_compact hands to the primitive
+    segs = {}
+    for n in fn_nodes(ec):
+        if isinstance(n, ast.Dict):
+            for k, v in zip(n.keys, n.values):
+                if isinstance(k, ast.Constant) and isinstance(k.value, str):
+                    segs[k.value] = simplify(substitute(Tm.of(ec, v), vp, prod))
+    vrets = [n.value for n in fn_nodes(vc) if isinstance(n, ast.Return) and n.value is not None]
+    okv = len(vrets) == 1
+    vt = Tm.of(vc, vrets[0]) if okv else None
+    if okv:
+        op = vc.pos_params[0]
+        for kname, tv in segs.items():
+            vt = substitute(vt, f"{op}.segments['{kname}']", tv)
+        vt = simplify(vt)
+        okv = vt[:2] == ("CALL", "verify") and len(vt[2]) >= 3
+        if okv:
+            inp, sig = vt[2][1], vt[2][2]
+            okv = inp == sign_call[2][1] and sig == sign_call
+    ctx.check(okv, "R03.7", vc, vc.node, "signature round trip", "verify_compact(extract_compact(sign_compact(obj))) does not verify the produced signature over the produced signing input: "
+              f"{show(vt) if vt else ''}", "alg.verify(I, alg.sign(I, key), key) with I = B64J(header) '.' B64U(payload)", construct="compact signature round trip")
+    ctx.assume("codec laws used by R03.7: split('.') of base64url segments; B64D(B64U(x)) = x; JSON round trip of the header object; alg.verify(I, alg.sign(I, k), k')"
+               " accepts for matching keys (primitive)")
+
+
 def run(ctx) -> None:
+    ctx.guard(r03_7)
     ctx.guard(r03_6)
     ctx.guard(r03_1)
     ctx.guard(r03_2)
